@@ -7,7 +7,7 @@
 (* rest of the trace is still examined.  The trace is accepted iff no      *)
 (* MISMATCH line was printed and every line was consumed (postcondition).  *)
 (***************************************************************************)
-EXTENDS UintBits, Json, IOUtils, TLC
+EXTENDS UintConv, Json, IOUtils, TLC
 
 Rec == ndJsonDeserialize(IOEnv.TRACE)
 
@@ -17,6 +17,7 @@ Check(e) ==
   IF e.st # "ok" THEN [terminates |-> FALSE]     \* hang or crash of the code under test
   ELSE CASE e.g = "arith" -> CheckArith(e)
          [] e.g = "bits"  -> CheckBits(e)
+         [] e.g = "conv"  -> CheckConv(e)
          [] OTHER -> [unknown_group |-> FALSE]
 
 Fails(c) == {f \in DOMAIN c : ~c[f]}
